@@ -38,7 +38,8 @@ def build(box):
 
 
 def run_case(job):
-    inp, extras = job
+    inp, extras = job[0], job[1]
+    variant = job[2] if len(job) > 2 else "plain"
     box = fsbox.Box("c19")
     msgs = []
     try:
@@ -56,15 +57,24 @@ def run_case(job):
         os.chmod(wrapper, os.stat(wrapper).st_mode | stat.S_IEXEC)
         out_cm = os.path.join(work, "out-cmake")
         out_cli = os.path.join(work, "out-cli")
+        if variant == "relative":
+            # relative input, output and -s paths: both sides run from the same working directory
+            target = paths[inp]
+            out_cm, out_cli = "out-cmake", "out-cli"
+            extra = [a if not os.path.isabs(a) else os.path.relpath(a, work) for a in extra]
         quoted = " ".join('"' + a.replace('"', '\\"') + '"' for a in extra)
+        call = f'cminx_gen_rst("{target}" "{out_cm}" {quoted})'
+        if variant == "in-function":
+            # called from inside a user function that itself received more arguments than the call passes on
+            call = f'function(make_docs a b c d e f g)\n  {call}\nendfunction()\nmake_docs(1 2 3 4 5 6 7)'
         with open(box.path("driver.cmake"), "w") as f:
             f.write(f'set(CMINX_EXECUTABLE "{wrapper}")\n'
                     f'include("{os.path.join(common.REPO_ROOT, "cmake", "cminx.cmake")}")\n'
-                    f'cminx_gen_rst("{target}" "{out_cm}" {quoted})\n'
+                    f'{call}\n'
                     f'message(STATUS "REACHED-AFTER-CALL")\n')
         env = dict(os.environ, CMINXDIR=box.path("cfg"), HOME=box.path("home"), XDG_CONFIG_HOME=box.path("home", ".config"))
         pc = subprocess.run(["cmake", "-P", box.path("driver.cmake")], cwd=work, env=env, capture_output=True, text=True)
-        isdir = os.path.isdir(target)
+        isdir = os.path.isdir(os.path.join(work, target))
         want = [target] + (["-r"] if isdir else []) + extra + ["-o", out_cm]
         logged = open(log).read().split("\n")[:-1] if os.path.exists(log) else None
         if logged is None:
@@ -91,11 +101,11 @@ def run_case(job):
             msgs.append("status: CMinx failed but the CMake script continued after cminx_gen_rst()")
         if not fail_direct and not reached and not fail_cmake:
             msgs.append("status: the command after cminx_gen_rst() was not reached although nothing failed")
-        t_cm = box.files("work/out-cmake") if os.path.isdir(out_cm) else {}
-        t_cli = box.files("work/out-cli") if os.path.isdir(out_cli) else {}
+        t_cm = box.files("work/out-cmake") if os.path.isdir(os.path.join(work, "out-cmake")) else {}
+        t_cli = box.files("work/out-cli") if os.path.isdir(os.path.join(work, "out-cli")) else {}
         if t_cm != t_cli:
             diffk = sorted(k for k in set(t_cm) | set(t_cli) if t_cm.get(k) != t_cli.get(k))
-            msgs.append(f"tree: output of cminx_gen_rst differs from the direct run in {diffk[:5]}")
+            msgs.append(f"tree: output of cminx_gen_rst differs from the direct run in {diffk[:5]} (variant {variant})")
         obs = [sorted(t_cli), fail_direct]
     finally:
         box.cleanup()
@@ -168,6 +178,10 @@ def run(ctx):
     if not quick:
         pairs += [list(t) for t in itertools.permutations(["p", "e", "s", "e2"], 3)]
     jobs = [(inp, ex) for inp in INPUTS for ex in singles + pairs]
+    for inp in INPUTS:
+        for ex in ([], ["p"], ["s"], ["e", "s"]):
+            jobs.append((inp, ex, "in-function"))
+            jobs.append((inp, ex, "relative"))
     ctx.cov["bounds"] = {"inputs": INPUTS, "extras": EXTRAS, "cases": len(jobs)}
     ctx.sweep(run_case, jobs, space="inputs x extra-argument lists", selftest=1, chunk=1)
     seq = [(inp, e1, e2, edit) for inp in ("file", "flat", "nested")
@@ -181,4 +195,4 @@ def run(ctx):
 def replay(case):
     if len(case) == 4:
         return run_sequence(tuple(case))["viol"]
-    return run_case((case[0], case[1]))["viol"]
+    return run_case(tuple(case))["viol"]
